@@ -21,6 +21,7 @@ try:
                 print("  ", l); break
 finally:
     subprocess.run(["git", "-C", "/repo", "checkout", "--", "."], check=True)
+meta = json.load(open(meta_p)) if os.path.exists(meta_p) else meta
 meta.setdefault("checks", {}).update(res)
 meta["detected_by"] = sorted(p for p, v in meta["checks"].items() if v["exit"] != 0)
 json.dump(meta, open(meta_p, "w"), indent=1)
